@@ -171,7 +171,12 @@ func genSeq(t *rapid.T) seqCase {
 			add(rapid.IntRange(0, i-1).Draw(t, "parent"), i, rapid.SampledFrom([]int{0, 0, 1}).Draw(t, "k"))
 		}
 	}
-	for i, ne := 0, rapid.IntRange(0, 8).Draw(t, "extraEdges"); i < ne; i++ {
+	extra := rapid.IntRange(0, 8).Draw(t, "extraEdges")
+	if c.Helper == "nodes" && rapid.Bool().Draw(t, "treeOnly") {
+		// a tree: every node is a candidate exactly once, so that the size of a skip/limit window is determined
+		extra = 0
+	}
+	for i, ne := 0, extra; i < ne; i++ {
 		a, b := rapid.IntRange(0, n-1).Draw(t, "a"), rapid.IntRange(0, n-1).Draw(t, "b")
 		if acyclicGraph {
 			if a == b {
@@ -596,14 +601,34 @@ func seqOracle(c seqCase) (evid.Info, error) {
 		case "lightweight-unique":
 			// the library's own stateful filter: every edge is admitted (handed to the delegate) at most once, whatever
 			// the number of workers
-			filter := traversal.UniquePathSegmentFilter(func(next *graph.PathSegment) bool {
-				mu.Lock()
-				admitted[int(next.Edge.ID)]++
-				mu.Unlock()
-				return c.segmentOK(next)
-			})
-			driver := traversal.LightweightDriver(c.direction(), graphcache.New(), c.criteria(), filter)
-			runErr = traversal.New(db, c.Workers).BreadthFirst(ctx, traversal.Plan{Root: plan.Root, Driver: driver})
+			// With several workers the same plan is run a number of times (a fresh filter each): whether two workers
+			// meet on one edge is a matter of the schedule. The first run is judged in full, a later one replaces it
+			// only when it admitted an edge twice.
+			reps := 1
+			if c.Workers > 1 {
+				reps = 10
+			}
+			for rep := 0; rep < reps && runErr == nil; rep++ {
+				round := map[int]int{}
+				filter := traversal.UniquePathSegmentFilter(func(next *graph.PathSegment) bool {
+					mu.Lock()
+					round[int(next.Edge.ID)]++
+					mu.Unlock()
+					return c.segmentOK(next)
+				})
+				driver := traversal.LightweightDriver(c.direction(), graphcache.New(), c.criteria(), filter)
+				runErr = traversal.New(db, c.Workers).BreadthFirst(ctx, traversal.Plan{Root: plan.Root, Driver: driver})
+				twice := false
+				for _, n := range round {
+					twice = twice || n > 1
+				}
+				if rep == 0 || twice {
+					admitted = round
+				}
+				if twice {
+					break
+				}
+			}
 		case "lightweight-skiplimit":
 			filter := traversal.FilteredSkipLimit(
 				func(next *graph.PathSegment) (bool, bool) {
